@@ -89,7 +89,8 @@ def call(lib, spec, v):
 
 
 def eye_short_wide(spec, v):
-    """eye(N, chunks=c, M) with fewer rows than the row block size and M > N (see report: defect in creation.eye)."""
+    """eye(N, chunks=c, M) with fewer rows than the row block size and M > N (finding eye-short-wide: creation.eye takes the
+    first ROW block's size for the column blocks too)."""
     if spec["fn"] != "eye":
         return False
     a, c = spec["args"], spec["chunks"][v]
@@ -113,6 +114,8 @@ def check(spec):
             sig["eye_short_wide"] = eye_short_wide(spec, v)
         if fn == "linspace":
             sig["int_dtype"] = np.dtype(a.get("dtype") or "f8").kind in "iu"
+        if fn == "diag":
+            sig["offset"] = a["k"] != 0
         with impl(fn, **sig), np.errstate(all="ignore"):
             ds = call(da, spec, v)
             gots = [d.compute(scheduler="sync") if isinstance(d, da.Array) else d for d in ds]
